@@ -15,7 +15,7 @@ CONFIG = dict(
           "corruptions (truncation, bit flips, opcode substitution, length inflation, splice, garbage) of "
           "all of them; plus argument-less instantiation through every call opcode, stdlib submodules whose "
           "parent package is not imported yet, computed operands (16 constant-call builders x 11 uses) and "
-          "names that are str.format templates reaching a canary module; each input goes through every analysis entry point (parse, stacked parse, decompile, "
+          "names that are str.format templates reaching a canary module; EXT1/2/4 opcodes with a populated copyreg extension registry; each input goes through every analysis entry point (parse, stacked parse, decompile, "
           "unparse, trace, safety check, likely-safe query, import/call summaries, CLI decompile / --trace / "
           "--check-safety, and a sequence of ten repeated inspections of the same bytes in one process; thorough adds format identification on a zip wrapping the input) while an audit "
           "hook installed before fickling was imported, canary modules, a logging meta-path finder, a "
@@ -100,6 +100,14 @@ def inputs(ctx):
                 yield f"poisoned-suffix-{r}", call + sfx + b".", True
                 if tier == "thorough":
                     yield f"poisoned-suffix-{r}-proto4", gen.frame(call + sfx + b".", "proto4"), True
+    # extension opcodes: the input picks a number, the process-wide copyreg registry says which global it means
+    for (m, n, code) in EXTENSIONS + [("unregistered", "x", 77), ("unregistered", "y", 0x4444)]:
+        op = (b"\x82" + bytes([code])) if code < 0x100 else (b"\x83" + code.to_bytes(2, "little")) if code < 0x10000 \
+            else (b"\x84" + code.to_bytes(4, "little"))
+        for body in (op + b".", op + b"0N.", op + b")R.", op + b"(S'vp_marker_8'\ntR.", b"(" + op + b"S'echo vp_marker_9'\no.",
+                     op + b")\x81.", b"]" + op + b"a.", op + b"}b."):
+            for framing in ("none", "proto2", "proto4"):
+                yield f"ext-opcode-{framing}", gen.frame(body, framing), True
     # names that are str.format / %-templates: a report built by formatting text that already contains the
     # pickle's names resolves the replacement fields against live objects (attribute and item look-ups)
     roots = ["0", "trigger", "severity", "self", "node", "shortened", "message", "result", "context", "pickled",
@@ -272,7 +280,21 @@ def observe_case(ctx, mods, watch, label, data, ep, interesting, parent_tokens=f
             os.remove(pth)
 
 
+# process-wide copyreg extension registry: the EXT1/EXT2/EXT4 opcodes select an entry by number
+EXTENSIONS = [("vp_canary_0", "g", 1), ("vp_canary_1.sub", "f", 2), ("vp_loaded_canary", "attr", 3), ("os", "system", 4),
+              ("subprocess", "Popen", 5), ("builtins", "eval", 240), ("vp_canary_0", "h", 0x0123), ("os", "popen", 0x7001),
+              ("vp_canary_0", "k", 0x00012345), ("builtins", "exec", 0x7FFFFFF0)]
+
+
+def register_extensions():
+    import copyreg
+    for m, n, code in EXTENSIONS:
+        if (m, n) not in copyreg._extension_registry:
+            copyreg.add_extension(m, n, code)
+
+
 def setup(ctx):
+    register_extensions()
     import fickling
     import fickling.fickle as f
     import fickling.analysis as analysis
